@@ -103,6 +103,16 @@ def _case(draw, tier):
         if cand and cand not in ids and not any(ch.isspace() for ch in cand):
             ids[2] = cand
             rels[1] = "split"
+    # one case in eight: the second pid IS the hex digest of the first under the store algorithm (and the third the digest of
+    # pid+format): an identifier that looks like one of the store's own addresses is still just an identifier
+    if draw(st.integers(0, 7)) == 0:
+        import hashlib
+        halgo = common.STORE_ALGOS[cfg["algo"]]
+        ids[1] = hashlib.new(halgo, ids[0].encode("utf-8")).hexdigest()
+        ids[2] = hashlib.new(halgo, (ids[0] + (f0 if isinstance(f0, str) else "")).encode("utf-8")).hexdigest()
+        if ids[2] == ids[1]:
+            ids[2] += "0"
+        rels[0], rels[1] = "digest-of", "digest-of-pid+format"
     # one case in eight: two pids that are the PATHS OF TWO EXISTING FILES with equal content (an identifier is a
     # string, whatever it happens to name on the host)
     if draw(st.integers(0, 7)) == 0:
